@@ -395,6 +395,11 @@ type c08Scen struct {
 	allowLog   map[string]int
 	allowStat  map[string]int
 	allowDom   map[string]int
+	// offLog / offStat: queries processed while anonymisation was configured
+	// off, allowed or not, by the record / client key they would leave with the
+	// full address
+	offLog  map[string]int
+	offStat map[string]int
 	nQueries   int
 	switchVia  string // the handler that last switched anonymisation at run time
 	anonSeen   bool
@@ -436,7 +441,7 @@ func c08New(t *testing.T, base string, n int, anon, refuse bool, qRules, sRules 
 	}
 	sc := &c08Scen{t: t, dir: dir, anon: anon, refuse: refuse, qRules: qRules, sRules: sRules, handlers: map[string]http.HandlerFunc{},
 		anonSeen: anon, uids: map[client.UID]uint64{}, cls: map[string]*client.Persistent{}, cls2: map[string]bool{},
-		allowLog: map[string]int{}, allowStat: map[string]int{}, allowDom: map[string]int{}}
+		allowLog: map[string]int{}, allowStat: map[string]int{}, allowDom: map[string]int{}, offLog: map[string]int{}, offStat: map[string]int{}}
 	sc.dhcp = &c08DHCP{tbl: map[netip.Addr]net.HardwareAddr{}}
 	sc.hour.Store(480000)
 	var err error
@@ -581,6 +586,10 @@ func (sc *c08Scen) query(spelled string, any bool, addr netip.Addr, cid string) 
 		}
 	} else {
 		sc.cls2["anon-off"] = true
+		sc.offLog[norm+"|"+rec.String()+"|"+cid]++
+		if cid == "" {
+			sc.offStat[rec.String()]++
+		}
 	}
 	if sc.switchVia != "" {
 		sc.cls2["query-after-anon-switch-"+sc.switchVia] = true
@@ -600,6 +609,22 @@ func (sc *c08Scen) query(spelled string, any bool, addr netip.Addr, cid string) 
 		sc.cls2["name-ignored"] = true
 	}
 	sc.nestClasses(cid, addr, owner)
+	if sc.anon && cid == "" {
+		// the report side (search re-check, top clients) looks the client up by the
+		// STORED, masked address: it may belong to somebody else
+		if o2 := c08Owner(sc.cls, sc.dhcp, "", rec); o2 != owner {
+			sc.cls2["anon-key-other-owner"] = true
+			f := func(c *client.Persistent) [2]bool {
+				if c == nil {
+					return [2]bool{}
+				}
+				return [2]bool{c.IgnoreQueryLog, c.IgnoreStatistics}
+			}
+			if f(o2) != f(owner) {
+				sc.cls2["anon-key-other-owner-flags-differ"] = true
+			}
+		}
+	}
 	if owner != nil {
 		if owner.IgnoreQueryLog || owner.IgnoreStatistics {
 			sc.cls2["client-ignored"] = true
@@ -975,8 +1000,8 @@ func (sc *c08Scen) readStats() (doms, clis []string, num uint64) {
 			} else {
 				clis = append(clis, "("+vfBytes(k)+", "+vfBytes("")+", "+vfN(n)+")")
 			}
-			if a, perr := netip.ParseAddr(k); perr == nil && int(n) > sc.allowStat[k] && sc.everAnon() && !c08Masked(a) {
-				sc.fail("unmasked-client-in-stats", fmt.Sprintf("statistics hold %d queries under the full client address %s; only %d such queries were processed while anonymisation was configured off", n, k, sc.allowStat[k]))
+			if a, perr := netip.ParseAddr(k); perr == nil && int(n) > sc.offStat[k] && !c08Masked(a) {
+				sc.fail("unmasked-client-in-stats", fmt.Sprintf("statistics hold %d queries under the full client address %s; only %d such queries (ignored or not) were processed while anonymisation was configured off", n, k, sc.offStat[k]))
 			}
 			if int(n) > sc.allowStat[k] {
 				sc.fail(sc.divKey("forbidden-client-in-stats"), fmt.Sprintf("statistics count %d queries for client %q; only %d may be counted (ignored clients / names, anonymisation as configured)", n, k, sc.allowStat[k]))
@@ -1036,9 +1061,9 @@ func (sc *c08Scen) finish(out *vfOut, tag string) {
 	// the anonymisation clause at the storage level: a full address on disk needs
 	// a query processed while anonymisation was configured off
 	for _, k := range storedKeys {
-		if n := stored[k]; n > sc.allowLog[k] && sc.everAnon() {
+		if n := stored[k]; n > sc.offLog[k] {
 			if a, perr := netip.ParseAddr(strings.Split(k, "|")[1]); perr == nil && !c08Masked(a) {
-				sc.fail("unmasked-address-in-querylog", fmt.Sprintf("querylog.json / querylog.json.1 hold %d record(s) %s with the full client address; only %d such queries were processed while anonymisation was configured off (GET /control/querylog/config)", n, k, sc.allowLog[k]))
+				sc.fail("unmasked-address-in-querylog", fmt.Sprintf("querylog.json / querylog.json.1 hold %d record(s) %s with the full client address; only %d such queries (ignored or not) were processed while anonymisation was configured off (GET /control/querylog/config)", n, k, sc.offLog[k]))
 			}
 		}
 	}
@@ -1051,6 +1076,57 @@ func (sc *c08Scen) finish(out *vfOut, tag string) {
 	doms, clis, num := sc.readStats()
 	_ = sc.st.Close()
 
+	// stats.db itself (Close has written the current unit): the units bucket by
+	// bucket, whatever the report would hide or merge
+	dbCoq := vfOpt("list (list (bytes * bytes * N) * list (bytes * N) * N)", false, "")
+	if units, derr := stats.VerifReadDB(filepath.Join(sc.dir, "stats.db")); derr != nil {
+		sc.fail("stats-db-unreadable", fmt.Sprintf("stats.db cannot be read after Close: %v", derr))
+	} else {
+		var us []string
+		total := map[string]int{}
+		for _, u := range units {
+			if u.NTotal == 0 && len(u.Clients) == 0 && len(u.Domains) == 0 {
+				continue
+			}
+			var cs, ds []string
+			for k, cnt := range u.Clients {
+				if a, perr := netip.ParseAddr(k); perr == nil {
+					cs = append(cs, "("+vfBytes("")+", "+vfBytes(c08IPBytes(k))+", "+vfN(cnt)+")")
+					total[a.String()] += int(cnt)
+				} else {
+					cs = append(cs, "("+vfBytes(k)+", "+vfBytes("")+", "+vfN(cnt)+")")
+					total[k] += int(cnt)
+				}
+			}
+			for k, cnt := range u.Domains {
+				ds = append(ds, vfPair(vfBytes(k), vfN(cnt)))
+			}
+			sort.Strings(cs)
+			sort.Strings(ds)
+			us = append(us, "("+vfList("bytes * bytes * N", cs)+", "+vfList("bytes * N", ds)+", "+vfN(u.NTotal)+")")
+		}
+		dbCoq = vfOpt("list (list (bytes * bytes * N) * list (bytes * N) * N)", true, vfList("list (bytes * bytes * N) * list (bytes * N) * N", us))
+		keys := make([]string, 0, len(total))
+		for k := range total {
+			keys = append(keys, k)
+		}
+		sort.Strings(keys)
+		for _, k := range keys {
+			if a, perr := netip.ParseAddr(k); perr == nil && total[k] > sc.offStat[k] && !c08Masked(a) {
+				sc.fail("unmasked-client-in-stats-db", fmt.Sprintf("the units of stats.db hold %d queries under the full client address %s; only %d such queries (ignored or not) were processed while anonymisation was configured off", total[k], k, sc.offStat[k]))
+			}
+		}
+		for _, k := range keys {
+			if total[k] > sc.allowStat[k] {
+				sc.fail(sc.divKey("forbidden-client-in-stats-db"), fmt.Sprintf("the units of stats.db hold %d queries for client %q; only %d may be counted (ignored clients / names, anonymisation as configured)", total[k], k, sc.allowStat[k]))
+			}
+		}
+		sc.cls2["stats-db-read"] = true
+		if len(us) > 1 {
+			sc.cls2["stats-db-several-units"] = true
+		}
+	}
+
 	macs := []string{}
 	for _, c := range c08ClientIDs {
 		if m, perr := net.ParseMAC(c); perr == nil {
@@ -1059,7 +1135,7 @@ func (sc *c08Scen) finish(out *vfOut, tag string) {
 	}
 	coq := "(CScen " + sc.head + " " + vfList("bytes * bytes", macs) + " " + vfList("sev", sc.evs) + " " +
 		vfList("bytes * bytes * bytes", oldItems) + " " + vfList("bytes * bytes * bytes", fileItems) + " " +
-		vfList("bytes * N", doms) + " " + vfList("bytes * bytes * N", clis) + " " + vfN(num) + ")"
+		vfList("bytes * N", doms) + " " + vfList("bytes * bytes * N", clis) + " " + vfN(num) + " " + dbCoq + ")"
 	var classes []string
 	for c := range sc.cls2 {
 		classes = append(classes, c)
